@@ -132,6 +132,11 @@ pub trait Check: 'static {
     const NAME: &'static str;
     fn strategy(tier: Tier) -> BoxedStrategy<Self::Case>;
     fn eval(case: &Self::Case) -> CaseReport;
+    /// Project an arbitrary decoded case (fuzzer bytes -> serde) into the sound input domain the
+    /// strategy generates from. Identity for cases whose interpretation is already total.
+    fn normalise(case: Self::Case) -> Self::Case {
+        case
+    }
 }
 
 #[derive(Debug, Clone, Serialize, serde::Deserialize)]
@@ -251,13 +256,45 @@ pub fn panic_message(p: Box<dyn std::any::Any + Send>) -> String {
     }
 }
 
-/// Evaluate a check's oracle, turning a panic of the code under test into a failure.
+thread_local! {
+    /// source file of the most recent panic on this thread (set by the panic hook)
+    static LAST_PANIC_FILE: std::cell::RefCell<String> = const { std::cell::RefCell::new(String::new()) };
+}
+
+/// Signature given to a panic raised by the harness's own code (never a property violation).
+pub const HARNESS_PANIC: &str = "harness-panic";
+
+/// Install the panic hook: remembers where a panic came from, and stays silent unless
+/// VERIF_LOUD_PANICS is set.
+pub fn install_panic_hook() {
+    static ONCE: std::sync::Once = std::sync::Once::new();
+    ONCE.call_once(|| {
+        let loud = std::env::var("VERIF_LOUD_PANICS").is_ok();
+        let default = std::panic::take_hook();
+        std::panic::set_hook(Box::new(move |info| {
+            let file = info.location().map(|l| l.file().to_string()).unwrap_or_default();
+            LAST_PANIC_FILE.with(|f| *f.borrow_mut() = file);
+            if loud {
+                default(info);
+            }
+        }));
+    });
+}
+
+/// Evaluate a check's oracle, turning a panic of the code under test into a failure. A panic
+/// raised inside the harness's own sources is a harness bug: it is reported with the
+/// `harness-panic` signature, which the drivers treat as inconclusive, never as a violation.
 pub fn eval_guarded<C: Check>(case: &C::Case) -> CaseReport {
     match catch_unwind(AssertUnwindSafe(|| C::eval(case))) {
         Ok(r) => r,
         Err(p) => {
             let mut r = CaseReport::new();
             let m = panic_message(p);
+            let file = LAST_PANIC_FILE.with(|f| f.borrow().clone());
+            if file.contains("/verif/harness/") || file.starts_with("src/") {
+                r.fail(HARNESS_PANIC, format!("panic inside the harness ({file}): {m}"));
+                return r;
+            }
             // signature: panic + first 60 chars so distinct panics are distinguishable
             let short: String = m.chars().take(60).collect();
             r.fail(format!("panic:{short}"), format!("panic in code under test: {m}"));
@@ -547,6 +584,12 @@ impl Ctx {
             }
         }
 
+        // a panic inside the harness itself is a harness bug: inconclusive, never a violation
+        let harness_bugs: Vec<Failure> = self.failures.iter().filter(|f| f.sig == HARNESS_PANIC).cloned().collect();
+        self.failures.retain(|f| f.sig != HARNESS_PANIC);
+        for f in &harness_bugs {
+            inconclusive.push(format!("harness panic in check `{}` (replay {}): {}", f.check, f.replay_path, f.msg));
+        }
         let violations = self.failures.len();
         for f in &self.failures {
             println!("VIOLATION property={} replay={}", self.property, f.replay_path);
@@ -750,7 +793,5 @@ pub fn start_watchdog(secs: u64, property: &'static str) {
 /// Silence the default panic printer (panics of code under test are caught and reported as
 /// failures with their message; printing each one during shrinking is noise).
 pub fn quiet_panics() {
-    if std::env::var("VERIF_LOUD_PANICS").is_err() {
-        std::panic::set_hook(Box::new(|_| {}));
-    }
+    install_panic_hook();
 }
